@@ -134,3 +134,36 @@ Example C13_fallback_nonvacuous :
   map shown (fallback_pcd (X := EQx) [[Fin 0; Fin 4; Fin 7]; [Fin 1; Fin 3; Fin 7]; [Fin 2; Fin 1; Fin 7]; [Fin 4; Fin 0; Fin 7]] 0%Z)
     = [None; Some (5 # 12); Some (1 # 2); None]%Q.
 Proof. repeat split; vm_compute; reflexivity. Qed.
+
+(* ---- the crowding entropy (one engine only).  log2 is an oracle table in the model; the theorem assumes of the table
+   only what log2 satisfies where it is used: a non-positive finite value on (0, 1] and -inf at 0.  For every finite
+   front on which the table answers every lookup: one value per point, each a non-negative rational or +inf, never NaN
+   (0 * -inf of a point coinciding with a neighbour, 0/0 of duplicates and of a constant objective all end as 0). ---- *)
+From PV Require Import Proofs.CeP.
+
+Theorem C13_ce_wellformed :
+  forall (feq : eq -> eq -> bool) (lg : list (eq * eq)),
+    (forall arg y, lookup_log (X := EQx) feq lg arg = Some y ->
+       (forall q, arg = Fin q -> (0 < q)%Q -> (q <= 1)%Q -> exists l, y = Fin l /\ (l <= 0)%Q) /\
+       (forall q, arg = Fin q -> (q == 0)%Q -> y = NInf)) ->
+    forall (F : list (list eq)) m d, fin_matrix F m -> (0 < m)%nat -> length (hd [] F) = m ->
+      calc_crowding_entropy (X := EQx) feq lg F = Some d -> length d = length F /\ Forall good d.
+Proof. exact ce_wellformed. Qed.
+Print Assumptions C13_ce_wellformed.
+
+(* non-vacuity: three equally spaced points, log2(1/2) = -1; the table satisfies the hypothesis and answers every lookup *)
+Definition lg_half : list (eq * eq) := [(Fin (1 # 2), Fin (- (1)))]%Q.
+Example C13_ce_nonvacuous :
+  map shown (match calc_crowding_entropy (X := EQx) eeqb lg_half [[Fin 0; Fin 2]; [Fin 1; Fin 1]; [Fin 2; Fin 0]] with Some d => d | None => [] end)
+  = [None; Some 2; None]%Q.
+Proof. vm_compute. reflexivity. Qed.
+Example C13_ce_table_ok :
+  forall arg y, lookup_log (X := EQx) eeqb lg_half arg = Some y ->
+    (forall q, arg = Fin q -> (0 < q)%Q -> (q <= 1)%Q -> exists l, y = Fin l /\ (l <= 0)%Q) /\
+    (forall q, arg = Fin q -> (q == 0)%Q -> y = NInf).
+Proof.
+  intros arg y H. unfold lookup_log, lg_half in H. cbn [find fst snd] in H.
+  destruct (eeqb (Fin (1 # 2)) arg) eqn:E; [|discriminate]. injection H as <-. split.
+  - intros q _ _ _. exists (- (1))%Q. split; [reflexivity|]. discriminate.
+  - intros q -> Hq. cbn in E. apply Qeq_bool_iff in E. rewrite Hq in E. discriminate E.
+Qed.
